@@ -94,6 +94,24 @@ type Env interface {
 	Note(msg string)
 	Fresh(prefix string, s smt.Sort) *smt.Term
 	MustBeUnsat(c *smt.Term, what string) // unwinding assertion
+	IsUnsat(c *smt.Term) bool             // c cannot hold on this path
+}
+
+// orderMatters: an unordered result is used where the order of its rows matters. That is a
+// real dependence only if two of its rows can be present together; if the solver shows that at
+// most one can (a unique key the syntax does not reveal), any order is the same order.
+func (e *ev) orderMatters(rel *Rel) bool {
+	if !rel.Unordered || len(rel.Rows) <= 1 {
+		return false
+	}
+	c := e.c
+	two := c.False()
+	for i := range rel.Rows {
+		for j := 0; j < i; j++ {
+			two = c.Or(two, c.And(rel.Rows[i].Present, rel.Rows[j].Present))
+		}
+	}
+	return !e.env.IsUnsat(two)
 }
 
 // ParamVal is a bound argument: a scalar or (for IN (?)) a list.
@@ -692,7 +710,7 @@ func (e *ev) rowAt(rel *Rel, ranks []*smt.Term, p int) RRow {
 }
 
 func (e *ev) firstRow(rel *Rel, col int) Val {
-	if rel.Unordered && len(rel.Rows) > 1 {
+	if e.orderMatters(rel) {
 		e.env.Unsupported("UNSUPPORTED order-dependent use of unordered result")
 	}
 	rk := e.ranks(rel)
@@ -906,7 +924,7 @@ func (e *ev) core(co *Core, outer []scope, orderBy []OrderKey, hasTmpBTree bool)
 // materialise turns rel into list order (rank order) with at most n rows; used for LIMIT and CTEs.
 func (e *ev) materialise(rel *Rel, limit *smt.Term) *Rel {
 	c := e.c
-	if rel.Unordered && len(rel.Rows) > 1 {
+	if e.orderMatters(rel) {
 		e.env.Unsupported("UNSUPPORTED order-dependent use of unordered result")
 	}
 	rk := e.ranks(rel)
@@ -1113,6 +1131,12 @@ func (db *DB) Query(env Env, sql string, sel *Select, args *Args) *Rel {
 }
 
 // Ordered returns rel's rows by output position: element p is the row with rank p.
+// OrderMatters reports whether two rows of the unordered rel can be present together.
+func (db *DB) OrderMatters(env Env, rel *Rel) bool {
+	e := &ev{env: env, c: env.Ctx(), db: db}
+	return e.orderMatters(rel)
+}
+
 func (db *DB) Ordered(env Env, rel *Rel) []RRow {
 	e := &ev{env: env, c: env.Ctx(), db: db}
 	needsOrder := false
